@@ -1,5 +1,7 @@
 import os
-from vlib import Check, V
+import re
+import shutil
+from vlib import Check, V, COQ, sh
 
 PID = "C17"
 
@@ -20,8 +22,70 @@ def q(tier, quick, thorough):
     return quick if tier == "quick" else thorough
 
 
+def need_counters(c, driver, names):
+    """The recipe's own sanity check: every model branch the property names must have been reached."""
+    got = c.cov.get("coq_counters", {}).get(driver, {})
+    for n in names:
+        if got.get(n, 0) <= 0:
+            c.broken.append(dict(kind="coverage", name="driver %s never reached model branch %s" % (driver, n),
+                                 detail="counters: %r" % got))
+
+
+def ocaml_volume(c, n):
+    """Volume through extraction: the frame + object codec and check_case extracted with ExtrOcamlBasic only
+    (ocaml/c17/extract.v), a line-oriented OCaml runner (ocaml/c17/driver.ml) built offline with ocamlfind,
+    the Go driver codecx writing n cases with the implementation's observations as lines."""
+    od = os.path.join(c.wd, "ocaml")
+    os.makedirs(od, exist_ok=True)
+    rc, out, _ = sh(["coqc", "-Q", COQ, "FRP", os.path.join(V, "ocaml/c17/extract.v")], cwd=od, timeout=600)
+    c.log.write(out)
+    for junk in ("extract.vo", "extract.vok", "extract.vos", "extract.glob", ".extract.aux"):
+        try:
+            os.remove(os.path.join(V, "ocaml/c17", junk))
+        except OSError:
+            pass
+    if rc != 0 or not os.path.exists(os.path.join(od, "c17model.ml")):
+        c.broken.append(dict(kind="extraction", name="ocaml/c17/extract.v", detail=out[-1200:]))
+        return
+    shutil.copy(os.path.join(V, "ocaml/c17/driver.ml"), od)
+    rc, out, _ = sh("ocamlfind ocamlopt -w -a c17model.mli c17model.ml driver.ml -o c17run", cwd=od, timeout=600)
+    c.log.write(out)
+    if rc != 0:
+        c.broken.append(dict(kind="ocaml-build", name="ocaml/c17/driver.ml", detail=out[-1200:]))
+        return
+    st = c.run_driver("codecx", n, coq=False, timeout=1800)
+    if not st:
+        return
+    lines_file = st.get("lines_file")
+    rc, out, dt = sh([os.path.join(od, "c17run"), lines_file], cwd=od, timeout=3000)
+    m = re.search(r"^DONE (\d+) (\d+) (\d+)$", out, re.M)
+    if rc != 0 or not m or int(m.group(1)) != int(st.get("cases", -1)):
+        c.broken.append(dict(kind="ocaml-run", name="extracted model runner", detail=out[-1200:]))
+        return
+    c.cov.setdefault("coq_counters", {})["codecx"] = dict(NMSG=int(m.group(3)), NLINES=int(m.group(1)))
+    c.cov["drivers"][-1]["extra"]["ocaml_runner_seconds"] = round(dt, 1)
+    bad = re.findall(r"^MISMATCH (\d+) (\d+)(.*)$", out, re.M)
+    if bad:
+        want = {int(i) for i, _, _ in bad[:50]}
+        text = {}
+        with open(lines_file) as f:
+            for k, l in enumerate(f, 1):
+                if k in want:
+                    text[k] = l.strip()
+                if k > max(want):
+                    break
+        for i, code, _ in bad[:50]:
+            c.failures.append(dict(key="mismatch:codecx:code%s" % code, code=int(code), driver="codecx",
+                                   what="extracted model and implementation disagree (driver codecx, reason code %s)" % code,
+                                   case=text.get(int(i), "")[:4000]))
+    try:
+        os.remove(lines_file)   # hundreds of MB in the thorough tier
+    except OSError:
+        pass
+
+
 def recipe(c: Check):
-    c.build(["Properties/C17.vo", "Corr/C17.vo"], harness=["c17"], units=["t1"])
+    c.build(["Properties/C17.vo", "Corr/C17.vo", "Corr/C17Sys.vo"], harness=["c17"], units=["t1"])
     c.obligations("C17")
     st = c.run_driver("codec", q(c.tier, 1500, 24000), shards=q(c.tier, 8, 16),
                       extra=os.path.join(V, "golden/msg_vectors.txt"))
@@ -30,12 +94,27 @@ def recipe(c: Check):
             c.failures.append(dict(key="golden-vector:%s" % name, driver="codec",
                                    what="encoding of the pinned %s message differs from the released bytes" % name,
                                    case="golden/msg_vectors.txt entry %s" % name))
+    # system level: first bytes of fresh connections; byte streams on an established control channel
+    if c.run_driver("firstbytes", q(c.tier, 300, 3000), shards=q(c.tier, 4, 8)):
+        need_counters(c, "firstbytes", ["NCLOSENOW", "NCLOSETIMEOUT", "NKEEPOPEN", "NTLSFAIL", "NTLSINNER", "NDISPATCHED"])
+    if c.run_driver("readloop", q(c.tier, 80, 1500), shards=q(c.tier, 2, 8)):
+        need_counters(c, "readloop", ["NENDFRAME", "NENDJSON", "NENDSHORT", "NREAD"])
+    ocaml_volume(c, q(c.tier, 4000, 200000))
     return c.finish(
         rule="codec driver: half valid messages (all 18 types, reflection-filled: empty/long/unicode strings, nil vs empty maps and "
              "slices, extreme integers, nil/zero/v4/v4-mapped/v6/zoned UDP addresses) through real msg.WriteMsg+ReadMsg, compared with "
              "Model.MsgObj.enc_obj/dec_obj over today's translated schema; half adversarial byte strings (all 256 type bytes, boundary "
              "lengths 0/10240/10241/2^63-1/-1/-2^63, truncations, bit flips, trailing bytes, garbage bodies) through real msg.ReadMsg "
-             "with a counting reader, compared with Model.Frame.decode_frame (result class, bytes consumed, type). distinct = distinct "
-             "case text; non-trivial = non-empty input / body other than {}",
+             "with a counting reader, compared with Model.Frame.decode_frame (result class, bytes consumed, type). "
+             "firstbytes driver: in-process frps with an established scripted session A (heartbeat + tcp proxy carrying bytes); as first "
+             "bytes of fresh raw or TLS connections: valid frames of all 18 types, all 256 type bytes, truncated frames (peer half-closes / "
+             "stays silent until the server's own 10 s timeout, those in parallel), oversize/negative lengths, garbage / wrongly typed / null "
+             "JSON, frame+garbage, silence, mux boundary lengths, websocket prefix, accepted Login / NewWorkConn; observed: closed promptly / at "
+             "timeout / kept, reply kind, session table before/after, A's heartbeat and tunnel; compared with Model.FrameSys.fs_first_step. "
+             "readloop driver: a second session B receives through the token cipher valid messages followed by a malformed frame and more "
+             "valid messages (batch / paced); observed replies, closure, session table, A unaffected; compared with fs_stream_step. "
+             "codecx driver: the codec generators again, as lines, evaluated by the OCaml runner built from the extracted model "
+             "(ExtrOcamlBasic only; 4 000 cases quick, 200 000 thorough; counted, not deduplicated). "
+             "distinct = distinct case text; non-trivial = non-empty input / body other than {}",
         assumptions=["encoding/json text layer is an oracle (Section variable) in C17_message_roundtrip; exercised by the driver and by pinned golden vectors",
                      "golib msg/json framing is third-party code in the module cache; modelled by Model/Frame.v and compared on every run"])
